@@ -27,6 +27,20 @@ def build(lib):
     reg('copy', lambda it, a, k: as_array(it, a[0]).copy(), "np.copy: new array, same contents")
     reg('zeros', lambda it, a, k: np_zeros(it, a[0], a[1] if len(a) > 1 else k.get('dtype')))
     reg('ones', lambda it, a, k: np_zeros(it, a[0], a[1] if len(a) > 1 else k.get('dtype'), 1))
+    def _full_like(it, a, k):
+        base = as_array(it, a[0])
+        v = a[1] if len(a) > 1 else k['fill_value']
+        dt = base.dtype
+        if 'dtype' in k and k['dtype'] is not None:
+            dt = 'int' if getattr(k['dtype'], 'name', '') == 'int' else 'real'
+        zv = to_num(v)
+        if dt == 'int' and not zv.is_int():
+            it.ctx.note_trusted("np.full_like(a, v) has the dtype of a: a non-integer v is truncated when a is an integer array")
+            zv = z3.If(zv >= 0, z3.ToInt(zv), -z3.ToInt(-zv))
+        elif dt == 'real':
+            zv = to_real(zv)
+        return SArr(base.shape, lambda o: zv, dt)
+    reg('full_like', _full_like, "np.full_like(a, v): array of the shape AND dtype of a filled with v")
     reg('eye', lambda it, a, k: np_eye(it, a[0]))
     reg('identity', lambda it, a, k: np_eye(it, a[0]))
     reg('append', lambda it, a, k: np_append(it, a[0], a[1]))
